@@ -197,16 +197,9 @@ func TestShape(t *testing.T) {
 				}
 				run.Sample(chk, map[string]any{"schema": schema, "doc": string(text), "keys_optional": opt, "accepted": o.accepted, "mutations": muts})
 			}
-			// history independence: the same document on a schema object that has already validated
-			// the earlier documents of this case
-			if o.judged && len(earlier[opt]) > 0 {
-				c4 := c
-				c4.History = append([]string(nil), earlier[opt]...)
-				check(t, c4)
-				run.Eval(chk, false)
-				run.Label("after-earlier-validations")
+			if o.judged {
+				earlier[opt] = append(earlier[opt], string(text))
 			}
-			earlier[opt] = append(earlier[opt], string(text))
 			// order independence: reversed and rotated property order give the same verdict
 			if o.judged && rapid.IntRange(0, 2).Draw(t, "perm") == 0 {
 				for mode := 0; mode < 2; mode++ {
@@ -228,6 +221,34 @@ func TestShape(t *testing.T) {
 				o3 := check(t, c3)
 				run.Eval(chk, nontrivial(c3, o3, parsed), schema, string(text), fmt.Sprint(!opt))
 				run.Label("option-flip")
+			}
+		}
+		// required keys one at a time: the instance without each single member of its objects
+		if rapid.IntRange(0, 2).Draw(t, "dropFamily") == 0 {
+			opt := rapid.Bool().Draw(t, "dropOpt")
+			base := gen.ShapeInstance(t, model, opt, "dropBase")
+			for _, dv := range gen.DropKeyVariants(base, 6) {
+				text := gen.Print(dv, nil)
+				c := Case{Schema: schema, Model: model, Doc: string(text), KeysOptional: opt}
+				o := check(t, c)
+				run.Eval(chk, nontrivial(c, o, dv), schema, string(text), fmt.Sprint(opt))
+				run.Label("doc:instance-without-one-key")
+				if o.judged {
+					earlier[opt] = append(earlier[opt], string(text))
+				}
+			}
+		}
+		// history independence: every document again, on a schema object that has already validated
+		// all documents of this case (accepted and rejected ones, in order)
+		for _, opt := range []bool{false, true} {
+			docs := earlier[opt]
+			if len(docs) < 2 {
+				continue
+			}
+			for _, d := range docs {
+				check(t, Case{Schema: schema, Model: model, Doc: d, KeysOptional: opt, History: docs})
+				run.Eval(chk, false)
+				run.Label("after-earlier-validations")
 			}
 		}
 	})
